@@ -239,7 +239,11 @@ def collect(
         )
     )
     new._cache.derived_from = table._cache.derived_from | {new._ast}
-    new._cache.partition_by = [preprocess_arg(col, new) for col in table._cache.partition_by]
+    # restore the grouping state on the collected table (grouping columns that were
+    # hidden are not part of the collected frame and cannot be grouped by any more)
+    group_cols = [new._cache.cols[uid] for uid in table._cache.partition_by if uid in new._cache.cols]
+    if group_cols:
+        new = new >> group_by(*group_cols)
 
     return new
 
